@@ -65,10 +65,15 @@ type Scenario struct {
 
 // ---------------------------------------------------------------- nodes
 
-// NodeErr is the error a harness node returns; it identifies the node.
-type NodeErr struct{ ID string }
+// NodeErr is the error a harness node returns; it identifies the node. Some nodes fail with an error that
+// wraps a context error of their own (e.g. a sink with an internal timeout) although the Send's context is live.
+type NodeErr struct {
+	ID    string
+	Inner error
+}
 
 func (e *NodeErr) Error() string { return "harness node " + e.ID + " failed" }
+func (e *NodeErr) Unwrap() error { return e.Inner }
 
 type call struct {
 	Node     *hnode
@@ -439,6 +444,12 @@ func Execute(sc *Scenario) *Result {
 	}
 	for _, ns := range sc.Nodes {
 		n := &hnode{spec: ns, run: r, err: &NodeErr{ID: ns.ID}}
+		switch len(ns.ID) % 3 {
+		case 1:
+			n.err.Inner = context.DeadlineExceeded
+		case 2:
+			n.err.Inner = context.Canceled
+		}
 		r.nodes[ns.ID] = n
 		if err := b.RegisterNode(eventlogger.NodeID(ns.ID), n); err != nil {
 			fail("SETUP", "RegisterNode %s: %v", ns.ID, err)
